@@ -41,6 +41,8 @@ pub enum WOp
     Despawn(u8),
     ResMutate,
     Broadcast,
+    /// broadcast of the second event type: only the reactor registered through `App::add_reactor` listens
+    Broadcast1,
 }
 
 #[derive(Debug, Clone, PartialEq, Eq, Hash, Serialize, Deserialize)]
@@ -261,6 +263,7 @@ fn op_sys(
         WOp::Despawn(e) => { let ent = pool_entity(e); c.queue(move |w: &mut World| { if let Ok(em) = w.get_entity_mut(ent) { em.despawn(); } }); }
         WOp::ResMutate => c.react().trigger_resource_mutation::<RA>(),
         WOp::Broadcast => c.react().broadcast(Pay::<0>::new(payload)),
+        WOp::Broadcast1 => c.react().broadcast(Pay::<1>::new(payload)),
     }
     ret
 }
@@ -326,7 +329,7 @@ pub struct WOutcome
 
 fn is_trigger(op: &WOp) -> bool
 {
-    matches!(op, WOp::Mutate(_) | WOp::EntityEvent(_) | WOp::Insert(..) | WOp::RemoveComp(_) | WOp::Despawn(_) | WOp::ResMutate | WOp::Broadcast | WOp::WRun(_))
+    matches!(op, WOp::Mutate(_) | WOp::EntityEvent(_) | WOp::Insert(..) | WOp::RemoveComp(_) | WOp::Despawn(_) | WOp::ResMutate | WOp::Broadcast | WOp::Broadcast1 | WOp::WRun(_))
 }
 
 fn run_inner(case: &WCase, out: &mut WOutcome)
@@ -338,6 +341,8 @@ fn run_inner(case: &WCase, out: &mut WOutcome)
     app.insert_react_resource(crate::universe::RB(0));
     app.add_world_reactor(WD::<0>).add_world_reactor(WD::<1>).add_world_reactor_with(W3, resource_mutation::<RA>());
     app.add_entity_reactor(E1).add_entity_reactor(E2).add_entity_reactor(E3).add_entity_reactor(E4);
+    // a persistent reactor registered through the App extension
+    app.add_reactor(broadcast::<Pay<1>>(), |mut r: AllReaders, mut n: Local<u32>| log_run(7, &mut r, &mut n, None));
     let world = app.world_mut();
     let pool: Vec<Entity> = (0..n).map(|_| world.spawn_empty().id()).collect();
     ST.with(|s| { let mut s = s.borrow_mut(); *s = St::default(); s.pool = pool.clone(); });
@@ -522,6 +527,7 @@ fn run_inner(case: &WCase, out: &mut WOutcome)
                 m.expect_for(&|k| *k == Key::ResourceMutation(0), Vec::new(), None);
                 if m.w3_start { m.expected.push(WLog{ reactor: 2, readings: Vec::new(), local: None }); }
             }
+            WOp::Broadcast1 => { m.expected.push(WLog{ reactor: 7, readings: vec![Item::Bcast(1, payload)], local: None }); }
             WOp::Broadcast =>
             {
                 m.expect_for(&|k| *k == Key::Broadcast(0), vec![Item::Bcast(0, payload)], None);
@@ -653,7 +659,7 @@ pub fn decode(bytes: &[u8], max_steps: usize) -> WCase
     };
     for _ in 0..n_steps
     {
-        let k = below(byte(&mut u), 28);
+        let k = below(byte(&mut u), 29);
         let e = below(byte(&mut u), n as usize) as u8;
         let x = byte(&mut u);
         let op = match k
@@ -677,6 +683,7 @@ pub fn decode(bytes: &[u8], max_steps: usize) -> WCase
             23 | 24 => WOp::RemoveComp(e),
             25 => WOp::Despawn(e),
             26 => WOp::ResMutate,
+            28 => WOp::Broadcast1,
             _ => WOp::Broadcast,
         };
         let settle = byte(&mut u) % 3 != 0;
